@@ -1,5 +1,5 @@
 //! unit: u01j
-//! properties: C01 C03 C12
+//! properties: C01 C03 C12 C10
 //! note: which pending HTLCs count towards the next commitment and which are already folded into the balance (ChannelContext::get_next_commitment_htlcs vs get_next_commitment_value_to_self_msat): every pending HTLC is represented exactly once
 //! trusted: R15 (statement slicing): both functions are iterator chains over the channel's HTLC vectors; the unit extracts, on every run, the four `match (state, local)` predicates (the bodies of the `.filter(..)` closures) verbatim into four predicate functions over the real state enums and proves the exactly-once relation between them; the surrounding map/sum/chain plumbing is dropped and not claimed
 //! trusted: payload types of the state enums (InboundHTLCResolution, InboundUpdateAdd, OnionErrorPacket, OnionPacket, PaymentPreimage, AttributionData, HTLCFailReason) are opaque
@@ -393,7 +393,7 @@ impl SentHTLCId { #[verifier::external_body] pub fn from_source(s: &HTLCSource) 
 //@ret r
 //@requires
     inbound_drop_count_ < u64::MAX,
-//@ensures P C01,C12 on-disconnection-exactly-the-inbound-htlcs-the-peer-announced-but-never-committed-are-dropped-and-counted
+//@ensures P C01,C12,C10 on-disconnection-exactly-the-inbound-htlcs-the-peer-announced-but-never-committed-are-dropped-and-counted
     r.0 == !(htlc.state is RemoteAnnounced),
     r.1 == inbound_drop_count_ + (if htlc.state is RemoteAnnounced { 1int } else { 0int }),
 //@mutant half_committed_inbound_htlc_dropped_on_disconnect
@@ -411,7 +411,7 @@ impl DiscChannel {
     fn give_back_ids_of_dropped_htlcs(&mut self, inbound_drop_count: u64) { self.context.next_counterparty_htlc_id $dec; }
 //@requires
     old(self).context.next_counterparty_htlc_id >= inbound_drop_count,
-//@ensures P C01,C12 the-ids-of-the-dropped-htlcs-are-given-back-so-the-peer-can-reuse-them
+//@ensures P C01,C12,C10 the-ids-of-the-dropped-htlcs-are-given-back-so-the-peer-can-reuse-them
     final(self).context.next_counterparty_htlc_id == old(self).context.next_counterparty_htlc_id - inbound_drop_count,
 //@end
 }
@@ -420,7 +420,7 @@ impl DiscChannel {
     for htlc in self.context.pending_outbound_htlcs.iter_mut() { $body:any } self.context.channel_state.set_peer_disconnected();
 //@with
     fn outbound_htlc_on_disconnect(htlc: &mut OutboundHTLCOutput) { $body }
-//@ensures P C01 on-disconnection-a-removal-the-peer-sent-but-never-committed-is-rolled-back-to-committed
+//@ensures P C01,C10 on-disconnection-a-removal-the-peer-sent-but-never-committed-is-rolled-back-to-committed
     old(htlc).state is RemoteRemoved ==> final(htlc).state is Committed,
     !(old(htlc).state is RemoteRemoved) ==> final(htlc).state == old(htlc).state,
     final(htlc).amount_msat == old(htlc).amount_msat && final(htlc).htlc_id == old(htlc).htlc_id,
